@@ -378,6 +378,104 @@ def boost_grants(rng, case):
     return case
 
 
+def boost_grant_vs_exemption(rng, case):
+    """a crate certified by a publisher grant ALONE (wildcard audit or trusted entry whose window starts or ends on the very
+    day the version was published, or strictly contains it) that also carries an exemption for the same version and
+    criteria: the exemption is unnecessary, the crate is fully audited, prune drops the exemption"""
+    store = case["store_struct"]
+    notes = Notes()
+    notes.n = 3000
+    crits = _crits(store)
+    names = sorted(_third_versions(case).items())
+    rng.shuffle(names)
+    for name, vs in names[:rng.choice([1, 1, 2])]:
+        plain = [v for v in vs if "@" not in v]
+        if not plain:
+            continue
+        v = rng.choice(plain)
+        store["audits"].pop(name, None)
+        for peer in store["lock"]["audits"].values():
+            peer.get("audits", {}).pop(name, None)
+        di = rng.randint(1, 5)
+        uid = rng.randint(1, 3)
+        pubs = [p for p in store["lock"]["publisher"].get(name, []) if p["version"] != v]
+        pubs.append({"version": v, "when": DATES[di], "user-id": uid, "user-login": f"user{uid}", "user-name": f"User {uid}"})
+        store["lock"]["publisher"][name] = pubs
+        shape = rng.choice(["ends-on", "ends-on", "starts-on", "inside", "single-day"])
+        s, e = {"ends-on": (DATES[max(0, di - rng.choice([1, 2]))], DATES[di]),
+                "starts-on": (DATES[di], DATES[min(7, di + rng.choice([1, 2]))]),
+                "inside": (DATES[di - 1], DATES[di + 1]),
+                "single-day": (DATES[di], DATES[di])}[shape]
+        crit = list(crits)
+        ent = {"user-id": uid, "start": s, "end": e, "criteria": crit, "notes": notes()}
+        if rng.random() < 0.5:
+            store["wildcard_audits"].setdefault(name, []).append(ent)
+        else:
+            store["trusted"].setdefault(name, []).append(ent)
+        store["exemptions"][name] = [{"version": v, "criteria": crit, "suggest": rng.random() < 0.7, "notes": notes()}]
+    return case
+
+
+def boost_dev_dep_policy(rng, case):
+    """a store that vets (everything else exempted) in which one third-party crate D is a DEV-dependency of a workspace
+    member whose policy names it in `dependency-criteria` with a criterion stronger than what D is certified for
+    (or weaker: then D needs less than the default).  What is required of D is decided by that one policy entry."""
+    store = case["store_struct"]
+    pkgs = case["graph"]["packages"]
+    notes = Notes()
+    notes.n = 3500
+    crits = _crits(store)
+    tv = _third_versions(case)
+    single = sorted(n for n, vs in tv.items() if len(vs) == 1 and "@" not in vs[0]
+                    and sum(1 for p in pkgs if p["name"] == n) == 1
+                    and all(p["source"] == "registry" for p in pkgs if p["name"] == n))
+    ws = [p for p in pkgs if p["workspace"]]
+    if not single or not ws:
+        return case
+    member = rng.choice(ws)
+    d = rng.choice(single)
+    dp = next(p for p in pkgs if p["name"] == d)
+    # D becomes a dev-only dependency of [member] and of nobody else
+    for p in pkgs:
+        p["deps"] = [x for x in p["deps"] if x["name"] != d]
+    member["deps"].append({"name": d, "version": dp["version"], "source": dp["source"], "kinds": ["dev"]})
+    for n, l in store["audits"].items():
+        store["audits"][n] = [a for a in l if a.get("kind") != "violation"]
+    for f in store["lock"]["audits"].values():
+        for n, l in f.get("audits", {}).items():
+            f["audits"][n] = [a for a in l if a.get("kind") != "violation"]
+    blanket_exemptions(store, pkgs, crits, notes, d)
+    for tbl in ("wildcard_audits", "trusted", "exemptions"):
+        store[tbl].pop(d, None)
+    for f in store["lock"]["audits"].values():
+        f.get("audits", {}).pop(d, None)
+        f.get("wildcard_audits", {}).pop(d, None)
+    has = rng.choice([["safe-to-run"], ["safe-to-run"], ["safe-to-deploy"]])
+    store["audits"][d] = [{"kind": "full", "version": vstr(dp), "criteria": has, "notes": notes()}]
+    want = rng.choice([["safe-to-deploy"], ["safe-to-deploy"], ["safe-to-run"], [c for c in crits if c not in BUILTINS][:1] or ["safe-to-deploy"]])
+    key = member["name"]
+    ent = store["policy"].get(key) or {}
+    ent.pop("notes", None)
+    ent.setdefault("dependency-criteria", {})[d] = want
+    if rng.random() < 0.5:
+        ent["dev-criteria"] = rng.choice([["safe-to-run"], ["safe-to-deploy"]])
+    store["policy"] = {k: v for k, v in store["policy"].items() if k.split(":")[0] != key}
+    store["policy"][key] = ent
+    # the policy table must only name real dependencies
+    for k, v in list(store["policy"].items()):
+        dc = v.get("dependency-criteria")
+        if dc:
+            names = {x["name"] for p in pkgs if p["name"] == k.split(":")[0] for x in p["deps"]}
+            for dn in list(dc):
+                if dn not in names:
+                    del dc[dn]
+            if not dc:
+                del v["dependency-criteria"]
+                if not v:
+                    v["notes"] = "empty"
+    return case
+
+
 def boost_exemptions(rng, case):
     store = case["store_struct"]
     notes = Notes()
@@ -978,6 +1076,21 @@ def gen_history(rng, cid, length=None):
         add(["regenerate", "exemptions"])
     elif first < 0.8:
         add(["check"])
+    if third and rng.random() < 0.12:
+        # `trust` next to an existing, STRONGER grant for the same publisher: the user asks for a weaker criterion
+        # (or another window); the existing entry is not what was asked about and must stay as it is
+        cand = [(pk, sorted({v["by"] for v in registry["packages"].get(pk, []) if v.get("by")})) for pk in third]
+        cand = [(pk, us) for pk, us in cand if us]
+        if cand:
+            pkg, us = rng.choice(cand)
+            uid = rng.choice(us)
+            strong = rng.choice([["safe-to-deploy"], ["safe-to-deploy"], list(crits)])
+            store["trusted"].setdefault(pkg, []).append(
+                {"user-id": uid, "start": rng.choice(DATES[1:3]), "end": rng.choice(DATES[5:8]), "criteria": strong, "notes": notes()})
+            args = ["trust", pkg, f"user{uid}", "--criteria", "safe-to-run"]
+            if rng.random() < 0.5:
+                args += ["--start-date", "2021-06-01", "--end-date", rng.choice(["2023-06-01", "2024-01-01"])]
+            add(args)
     n = length or rng.randint(2, 5)
     for _ in range(n):
         r = rng.random()
